@@ -1,6 +1,7 @@
 //! Correspondence + oracle harness: runs the real ragc code (linked from /repo's working tree)
 //! and the Lean model driver on the same generated inputs and reports where they differ, and
 //! evaluates each property directly on the real code.
+mod gen;
 mod model;
 mod props;
 mod report;
@@ -18,6 +19,7 @@ pub struct Ctx {
     pub tier: Tier,
     pub seed: u64,
     pub model: Option<model::Model>,
+    pub model_path: Option<String>,
     pub replay: Option<Value>,
     pub workdir: String,
 }
@@ -26,6 +28,10 @@ impl Ctx {
     /// pick by tier
     pub fn t<T>(&self, quick: T, thorough: T) -> T {
         if self.tier == Tier::Quick { quick } else { thorough }
+    }
+    /// A private driver process for a worker thread (None when running without a model).
+    pub fn spawn_model(&self) -> Option<model::Model> {
+        self.model_path.as_ref().map(|p| model::Model::spawn(p).expect("spawn model driver"))
     }
     /// Ask the model; `None` when running without a model (search-only mode).
     pub fn ask(&mut self, req: &str) -> Option<String> {
@@ -72,7 +78,8 @@ fn main() {
     } else {
         Some(model::Model::spawn(&model_path).expect("spawn model driver"))
     };
-    let mut ctx = Ctx { tier, seed, model, replay, workdir };
+    let model_path = if model_path == "none" { None } else { Some(model_path.clone()) };
+    let mut ctx = Ctx { tier, seed, model, model_path, replay, workdir };
     // panics of the code under test are caught per case; keep their messages out of stdout
     std::panic::set_hook(Box::new(|_| {}));
     let mut rep = match props::run(&prop, &mut ctx) {
